@@ -4,6 +4,7 @@ import (
 	"fmt"
 	"go/constant"
 	"go/token"
+	"go/types"
 	"strings"
 
 	"golang.org/x/tools/go/ssa"
@@ -27,6 +28,42 @@ func c01(c *Ctx) {
 	c01Envelope(c)
 	c01Sizes(c)
 	narrowingRule(c, "C01.lenwidth", map[string]bool{"aead/aesctrhmac": true, "aead/subtle": true}, 0)
+	c01Suffix(c)
+}
+
+// c01Suffix: the associated-data length suffix of encrypt-then-MAC, by value.
+// Every helper of the two packages that maps a byte slice (or a uint64) to a
+// fresh 8-byte buffer is folded on constant arguments (engine E, byte-buffer
+// domain): a 3-byte associated data gives be64(24); 0x0102030405060708 gives
+// those eight bytes big-endian.
+func c01Suffix(c *Ctx) {
+	p, r := c.P, c.R
+	n := 0
+	for _, rel := range []string{"aead/aesctrhmac", "aead/subtle"} {
+		for _, f := range pkgFuncs(p, rel) {
+			sig := f.Signature
+			if f.Parent() != nil || sig.Recv() != nil || sig.Params().Len() != 1 || sig.Results().Len() != 1 || !core.IsByteSlice(sig.Results().At(0).Type()) {
+				continue
+			}
+			key := fmt.Sprintf("C01.lenwidth/%s/value", core.FuncID(f))
+			switch {
+			case core.IsByteSlice(sig.Params().At(0).Type()) && strings.Contains(strings.ToLower(f.Name()), "bits"):
+				if layoutCheck(c, "C01.lenwidth", key, f, 0, []byte{0, 0, 0, 0, 0, 0, 0, 24}, "be64(8*len(associatedData)) for 3 bytes of associated data", consteval.BytesVal([]byte{1, 2, 3})) {
+					n++
+				}
+			case isUint64(sig.Params().At(0).Type()):
+				if layoutCheck(c, "C01.lenwidth", key, f, 0, []byte{1, 2, 3, 4, 5, 6, 7, 8}, "be64(0x0102030405060708)", consteval.Val{K: consteval.Const, C: constant.MakeUint64(0x0102030405060708)}) {
+					n++
+				}
+			}
+		}
+	}
+	r.Counts["length_suffix_helpers_folded"] = n
+}
+
+func isUint64(t types.Type) bool {
+	b, ok := t.Underlying().(*types.Basic)
+	return ok && b.Kind() == types.Uint64
 }
 
 func c01Envelope(c *Ctx) {
